@@ -8,6 +8,7 @@ import (
 	"net/http"
 	"strings"
 	"testing"
+	"time"
 
 	connect "github.com/bufbuild/connect-go"
 	"google.golang.org/protobuf/proto"
@@ -69,10 +70,16 @@ type c02Case struct {
 	ByIcept bool `json:"by_icept"` // raised by an interceptor instead of the handler
 	// Cause: the coded error wraps a chain ending in 1 context.Canceled, 2 context.DeadlineExceeded, 3 io.EOF (0 = plain errors.New).
 	Cause int `json:"cause,omitempty"`
+	// Real: run over the real net/http stack (HTTP/1.1 or TLS HTTP/2 per Cfg.HTTP) instead of memhttp.
+	Real bool `json:"real,omitempty"`
 }
 
 func (k c02Case) key() string {
-	return fmt.Sprintf("%s/code%d/msg%d/det%d/meta%d/sent%d/icept=%v/cause%d", k.Cfg, k.Code, k.Msg, k.Details, k.Meta, k.Sent, k.ByIcept, k.Cause)
+	real := ""
+	if k.Real {
+		real = "/real"
+	}
+	return fmt.Sprintf("%s/code%d/msg%d/det%d/meta%d/sent%d/icept=%v/cause%d%s", k.Cfg, k.Code, k.Msg, k.Details, k.Meta, k.Sent, k.ByIcept, k.Cause, real)
 }
 
 func (k c02Case) message() string {
@@ -160,10 +167,28 @@ func c02Check(c *ev.Collector, k c02Case) {
 		return want
 	}, append(opts, k.Cfg.HandlerOptions()...)...)
 	tr := &memhttp.Transport{Handler: h, Proto: k.Cfg.HTTP, SyncCloseReq: true}
-	cl := NewClient(tr, k.Cfg)
 	var res CallResult
-	g := Guarded(func() { res = RunCall(context.Background(), cl, k.Cfg.Kind, [][]byte{{1}}, nil) }, tr)
+	var g GuardResult
+	realStatus := 0
+	if k.Real {
+		srv := NewRealServer(h, k.Cfg.HTTP == 2)
+		defer srv.Close()
+		rec := &statusRecorder{inner: srv.Client()}
+		cl := connect.NewClient[BV, BV](rec, srv.URL()+Procedure, k.Cfg.ClientOptions()...)
+		if !Watchdog(60*time.Second, func() { res = RunCall(context.Background(), cl, k.Cfg.Kind, [][]byte{{1}}, nil) }) {
+			c.NotExhaustive("a call over the real transport did not return within 60 s: " + k.key())
+			return
+		}
+		realStatus = rec.status
+		c.AddExtra("real_transport_calls", 1)
+	} else {
+		cl := NewClient(tr, k.Cfg)
+		g = Guarded(func() { res = RunCall(context.Background(), cl, k.Cfg.Kind, [][]byte{{1}}, nil) }, tr)
+	}
 	tags := append(k.Cfg.Tags(), fmt.Sprintf("msg=%d", k.Msg))
+	if k.Real {
+		tags = append(tags, "real-transport")
+	}
 	if k.Code == 0 {
 		tags = append(tags, "plain-error")
 	}
@@ -227,7 +252,11 @@ func c02Check(c *ev.Collector, k c02Case) {
 		bad = true
 		viol("messages-before-error", "lost", "client received %d of the %d messages sent before the error", len(res.Msgs), k.Sent)
 	}
-	if k.Cfg.Proto == PConnect && k.Cfg.Kind == KUnary {
+	if k.Real && k.Cfg.Proto == PConnect && k.Cfg.Kind == KUnary && realStatus >= 200 && realStatus < 300 {
+		bad = true
+		viol("unary-connect-status", fmt.Sprintf("status=%d", realStatus), "failed unary Connect call answered with HTTP %d", realStatus)
+	}
+	if !k.Real && k.Cfg.Proto == PConnect && k.Cfg.Kind == KUnary {
 		if ex := tr.Last(); ex != nil && ex.Status >= 200 && ex.Status < 300 {
 			bad = true
 			viol("unary-connect-status", fmt.Sprintf("status=%d", ex.Status), "failed unary Connect call answered with HTTP %d", ex.Status)
@@ -238,6 +267,20 @@ func c02Check(c *ev.Collector, k c02Case) {
 	} else {
 		c.Outcome("ok")
 	}
+}
+
+// statusRecorder remembers the HTTP status of the last response.
+type statusRecorder struct {
+	inner  connect.HTTPClient
+	status int
+}
+
+func (s *statusRecorder) Do(r *http.Request) (*http.Response, error) {
+	resp, err := s.inner.Do(r)
+	if resp != nil {
+		s.status = resp.StatusCode
+	}
+	return resp, err
 }
 
 func anyOf(d connect.ErrorDetail) *anypb.Any {
@@ -265,10 +308,10 @@ func c02Cases(thorough bool) []c02Case {
 								for meta := range c02Metas {
 									for _, sent := range sents {
 										for _, ic := range []bool{false, true} {
-											out = append(out, c02Case{cfg, code, msg, det, meta, sent, ic, 0})
+											out = append(out, c02Case{cfg, code, msg, det, meta, sent, ic, 0, false})
 											if code != 0 && msg < 3 && det < 2 {
 												for cause := 1; cause <= 3; cause++ {
-													out = append(out, c02Case{cfg, code, msg, det, meta, sent, ic, cause})
+													out = append(out, c02Case{cfg, code, msg, det, meta, sent, ic, cause, false})
 												}
 											}
 										}
@@ -281,13 +324,13 @@ func c02Cases(thorough bool) []c02Case {
 				}
 				for code := 0; code <= 16; code++ {
 					for msg := range c02Messages {
-						out = append(out, c02Case{cfg, code, msg, 1, 1, 0, false, 0})
+						out = append(out, c02Case{cfg, code, msg, 1, 1, 0, false, 0, false})
 					}
 					// coded errors whose cause chain ends in a context error or io.EOF keep their own code
 					if code != 0 {
 						for cause := 1; cause <= 3; cause++ {
 							for _, sent := range sents {
-								out = append(out, c02Case{cfg, code, 0, 1, 1, sent, false, cause})
+								out = append(out, c02Case{cfg, code, 0, 1, 1, sent, false, cause, false})
 							}
 						}
 					}
@@ -296,7 +339,7 @@ func c02Cases(thorough bool) []c02Case {
 					for meta := range c02Metas {
 						for _, sent := range sents {
 							for _, ic := range []bool{false, true} {
-								out = append(out, c02Case{cfg, 10, 2, det, meta, sent, ic, 0})
+								out = append(out, c02Case{cfg, 10, 2, det, meta, sent, ic, 0, false})
 							}
 						}
 					}
@@ -310,7 +353,7 @@ func c02Cases(thorough bool) []c02Case {
 func TestC02(t *testing.T) {
 	c := ev.New("C02")
 	defer func() { _ = c.Finish() }()
-	c.SetRule("input/configuration enumeration on real clients and handlers: code {plain Go error, 1..16} x message {ascii, empty, non-ASCII UTF-8, NUL/control bytes, '%' forms, CR/LF, leading/trailing blanks, 4 KiB} x details {none, 1, 2 distinct, 2 equal} x metadata multimaps (several values per key, -Bin key) x messages sent before the error {0,1,2} x raised by {handler, interceptor} x underlying cause {plain, wrapping context.Canceled, context.DeadlineExceeded, io.EOF} x {connect,grpc,grpcweb} x {proto,json} x 4 RPC kinds; quick = full code x message product with the other dimensions at a default plus every other dimension varied around one default (deviation bound 2), thorough = full product; distinct = full parameter tuple, all cases are non-trivial (an error is always raised)")
+	c.SetRule("input/configuration enumeration on real clients and handlers: code {plain Go error, 1..16} x message {ascii, empty, non-ASCII UTF-8, NUL/control bytes, '%' forms, CR/LF, leading/trailing blanks, 4 KiB} x details {none, 1, 2 distinct, 2 equal} x metadata multimaps (several values per key, -Bin key) x messages sent before the error {0,1,2} x raised by {handler, interceptor} x underlying cause {plain, wrapping context.Canceled, context.DeadlineExceeded, io.EOF} x {connect,grpc,grpcweb} x {proto,json} x 4 RPC kinds; quick = full code x message product with the other dimensions at a default plus every other dimension varied around one default (deviation bound 2), thorough = full product on memhttp plus the code x message product and the details/metadata menus over the real net/http stack (HTTP/1.1 and TLS HTTP/2 on loopback); distinct = full parameter tuple, all cases are non-trivial (an error is always raised)")
 	c.Assume("memhttp strips optional whitespace around header values as HTTP/1.1 parsers do; error details are Any-wrapped well-known types both ends know")
 	if ev.ReplayFile() != "" {
 		var k c02Case
@@ -321,6 +364,38 @@ func TestC02(t *testing.T) {
 		return
 	}
 	cases := c02Cases(ev.Thorough())
+	if ev.Thorough() {
+		// the code x message product and the metadata / details dimensions once more over real HTTP/1.1 and TLS HTTP/2
+		for _, p := range AllProtos {
+			for _, kind := range AllKinds {
+				for _, hv := range []int{1, 2} {
+					cfg := Cfg{Proto: p, Comp: CompDefault, Kind: kind, HTTP: hv}
+					if !cfg.Valid() {
+						continue
+					}
+					for code := 0; code <= 16; code++ {
+						for msg := range c02Messages {
+							if hv == 1 && p == PGRPC && len(c02Messages[msg]) > 1000 {
+								// net/http's HTTP/1.1 chunked reader refuses trailers this long
+								// ("suspiciously long trailer"): a limit of that transport, not of the library
+								continue
+							}
+							cases = append(cases, c02Case{Cfg: cfg, Code: code, Msg: msg, Details: 1, Meta: 1, Real: true})
+						}
+					}
+					for det := 0; det < 4; det++ {
+						for meta := range c02Metas {
+							sent := 0
+							if kind.ServerStreams() {
+								sent = 1
+							}
+							cases = append(cases, c02Case{Cfg: cfg, Code: 10, Msg: 2, Details: det, Meta: meta, Sent: sent, Real: true})
+						}
+					}
+				}
+			}
+		}
+	}
 	for i, k := range cases {
 		if !ev.Mine(i) {
 			continue
@@ -329,7 +404,11 @@ func TestC02(t *testing.T) {
 			break
 		}
 		c.Case(k.key(), true)
-		Bubble(t, func() { c02Check(c, k) })
+		if k.Real {
+			c02Check(c, k) // real sockets cannot live in a bubble
+		} else {
+			Bubble(t, func() { c02Check(c, k) })
+		}
 		if i%1999 == 0 {
 			c.Sample(map[string]any{"case": k.key(), "message": clip(c02Messages[k.Msg], 40)})
 		}
